@@ -193,6 +193,75 @@ def make_fixed(widths, delim_name, maxlen):
     return mk, replay
 
 
+def make_public(nrows):
+    """the public generator API cutplace.rows() (Reader inside a 'with' block, closed on exit) in the three modes with
+    an end-of-data check that may fail: the error 'raise' mode ends with is the first rejection of 'yield' mode, never
+    an end-of-data CheckError about data that were not processed completely"""
+    keys = ("ch", "t01")
+    names = rf.field_names(keys)
+    text = rf.cid_text(keys, checks=("c,dc,DistinctCount,%s >= 2" % names[0],))
+
+    def run(mode, rows):
+        from cutplace import validio, errors
+        cid = rf.build_cid(text)
+        items = []
+        raised = None
+        try:
+            for r in validio.rows(cid, rows, on_error=mode):
+                if isinstance(r, errors.DataError):
+                    items.append(("err", type(r).__name__, r.location.line, r.location.cell))
+                else:
+                    items.append(("row", r))
+        except errors.DataError as e:
+            raised = (type(e).__name__, e.location.line if e.location is not None else None,
+                      e.location.cell if (e.location is not None and e.location._has_cell) else None)
+        return items, raised
+
+    def go(cells):
+        rows = [[cells[2 * r], cells[2 * r + 1]] for r in range(nrows)]
+        for r in range(nrows):
+            assume(len(rows[r][0]) == 1 and 97 <= ord(rows[r][0]) <= 99)
+            assume(len(rows[r][1]) <= 2)
+        with patched(rf.smart_repr(), *rf.srows_patches()):
+            y, yr = run("yield", rows)
+            c, cr = run("continue", rows)
+            r_, rr = run("raise", rows)
+        yrows = [i for i in y if i[0] == "row"]
+        ok = len(c) == len(yrows) and all(rows_equal(a[1], b[1]) for a, b in zip(c, yrows)) and cr == yr
+        why = "" if ok else "continue %r / %r vs yield %r / %r" % (c, cr, y, yr)
+        first = None
+        prefix = []
+        for it in y:
+            if it[0] == "err":
+                first = it
+                break
+            prefix.append(it)
+        if ok:
+            if len(r_) != len(prefix):
+                ok, why = False, "raise produced %r, yield prefix %r" % (r_, prefix)
+            elif first is not None and rr != (first[1], first[2], first[3]):
+                ok, why = False, "raise ended with %r but the first rejection in yield mode is %r" % (rr, first)
+            elif first is None and rr != yr:
+                ok, why = False, "raise ended with %r, yield with %r" % (rr, yr)
+        if ok and yr is not None and yr[0] != "CheckError":
+            ok, why = False, "yield mode ended with %r" % (yr,)
+        cls = ("rowerr" if first is not None else "clean") + ("-endfail" if yr is not None else "-endok")
+        return ok, why, cls, rows
+
+    def mk(mode):
+        def h(c0: str, c1: str, c2: str, c3: str, c4: str, c5: str):
+            ok, why, cls, _ = go([c0, c1, c2, c3, c4, c5])
+            return ok, cls
+
+        return h
+
+    def replay(args):
+        ok, why, cls, rows = go([args["c%d" % i] for i in range(6)])
+        return (not ok), "cutplace.rows() with DistinctCount >= 2 on %r: %s" % (rows, why), "modes-public-api"
+
+    return mk, replay
+
+
 def make_archive_faults():
     """a broken archive stops reading with a data-format error in every mode (ODS container, S-ZIP / S-XML faults)"""
     from props.c15 import FakeZipModule, FakeEtModule, ARCHIVE_FAULTS, parse_native, encode_document
@@ -251,6 +320,13 @@ def build(tier, seed):
                              "real fixed_rows, widths %r, delimiter %s, every text of length <= %d, all three modes per "
                              "path" % (widths, d, ml), budget_s=600 if tier == "quick" else 2400, per_path_timeout=90,
                              replay=rp, functions=FUNCS, stubs=("S-STREAM", "S-FMT")))
+    for nrows in ((2,) if tier == "quick" else (2, 3)):
+        mk, rp = make_public(nrows)
+        queries.append(Query("C06/public-rows-api/rows=%d" % nrows, "modes-public", mk,
+                             "cutplace.rows() in three modes, %d rows (key a/b/c, value len<=2), DistinctCount >= 2 at the "
+                             "end" % nrows, budget_s=600 if tier == "quick" else 2400, per_path_timeout=90, replay=rp,
+                             functions=FUNCS + ("cutplace.validio.rows", "cutplace.validio.BaseValidator.__exit__"),
+                             expect=("clean-endok", "clean-endfail", "rowerr-endfail"), stubs=("S-ROWS", "S-FMT")))
     queries.append(Query("C06/archive-faults/ods", "modes-archive", make_archive_faults(),
                          "ODS container: opening the archive / reading content.xml / parsing fails with any documented "
                          "exception type, in each of the three modes", budget_s=300, expect=("stage0", "stage1", "stage2"),
